@@ -260,10 +260,13 @@ class Return(Exception):
 class CEval:
     MAX_UNROLL = 64
 
-    def __init__(self, tu, fname, args):
-        """args: parameter name -> int | Poly | Struct | ArrayParam | Opaque"""
+    def __init__(self, tu, fname, args, inline=False, _depth=0):
+        """args: parameter name -> int | Poly | Struct | ArrayParam | Opaque ; inline: calls of functions defined in
+        the same translation unit are executed too (their calls / copies are merged into this evaluation)"""
         self.tu = tu
         self.fname = fname
+        self.inline = inline
+        self._depth = _depth
         self.env = {}
         self.copies = []
         self.calls = []  # (callee name, [argument values])
@@ -273,7 +276,7 @@ class CEval:
         for p in params:
             nm = p.get("name")
             v = args.get(nm, Opaque("parameter " + str(nm)))
-            self.env[p["id"]] = _p(v) if isinstance(v, int) else v
+            self.env[p["id"]] = _p(v) if isinstance(v, int) and not isinstance(v, bool) else v
         self.structs = {}
         self.ret = None
 
@@ -393,7 +396,15 @@ class CEval:
             ks = cfacts.kids(n)
             callee = cfacts.strip(ks[0])
             name = (callee.get("referencedDecl") or {}).get("name")
-            self.calls.append((name, [self.ev(a) for a in ks[1:]]))
+            argv = [self.ev(a) for a in ks[1:]]
+            self.calls.append((name, argv))
+            if self.inline and name in self.tu.funcs and self._depth < 3 and name != self.fname:
+                pnames = [p.get("name") for p in self.tu.params(name)]
+                sub = CEval(self.tu, name, dict(zip(pnames, argv)), inline=True, _depth=self._depth + 1)
+                sub.run()
+                self.calls += sub.calls
+                self.copies += sub.copies
+                return sub.ret if sub.ret is not None else Opaque("void " + str(name))
             if name in ("malloc", "calloc"):
                 return ("heap", len(self.structs))
             return Opaque("call " + str(name))
